@@ -3,7 +3,7 @@ From Coq Require Import List NArith ZArith Arith Bool.
 Import ListNotations.
 From Chiri Require Import Base.Bytes Base.Res Model.Tokenizer Model.TreeParser Model.Markers Model.Clean
      Spec.Ranges Spec.Extents Spec.Rename Spec.Simulation Proofs.C04Proofs Proofs.C05Proofs Proofs.CollectProofs Proofs.CleanProofs
-     Proofs.RenameProofs Proofs.SimStrings Proofs.WellNested Proofs.DocMask Proofs.AstCollect Proofs.Idempotent.
+     Proofs.RenameProofs Proofs.SimStrings Proofs.WellNested Proofs.DocMask Proofs.AstCollect Proofs.Idempotent Proofs.CliProofs Proofs.Compose.
 Local Open Scope Z_scope.
 
 (** The full statements (kept visible; NOT proved in full):
@@ -22,8 +22,8 @@ Definition C19_composition_statement : Prop :=
     nonws out12 = nonws out2.
 (** As stated (for EVERY well-formed source) idempotence is not what the property claims: its domain is
     sources in which delimiter strings occur only as parts of tags, generated from ASTs.  Proved below
-    for AST documents without unwrap-block elements (idempotence; the composition over growing
-    readiness for the same documents is in Proofs/Compose.v when present).  NOT proved: documents with
+    for AST documents without unwrap-block elements (idempotence and composition over
+    growing readiness).  NOT proved: documents with
     unwrap-block elements (there the re-tokenisation argument needs, in addition, that wrapper lines
     carry no tags and that an element that could not be unwrapped still cannot be after its children
     are gone); these are validated by the history runs of this check (chains of 1..4 configurations). *)
@@ -66,6 +66,75 @@ Example C19_idempotent_example :
   clean ac_cfg id_ds id_de (render id_ds id_de (doc_of id_ast)) = Ok id_out /\
   clean ac_cfg id_ds id_de id_out = Ok id_out.
 Proof. split; [exact id_first | exact id_second]. Qed.
+
+(** PROVED (Proofs/Compose.v), same documents: composition over growing readiness.  Cleaning step by
+    step and cleaning once with the final configuration give the same text up to whitespace - in
+    fact the same sequence of tags and the same non-whitespace text ([same_skeleton]) - and no tag of
+    a ready element is stranded: the step-by-step output is the rendering of a tree all of whose
+    elements are elements of the input that are not ready under the final configuration, and it is a
+    fixed point of cleaning. *)
+Theorem C19_composition_default_strategy :
+  forall cfg1 cfg2 ds de f out1 out12 out2,
+    good_delims ds de -> good_doc ds de (doc_of f) -> bodies_ok (doc_of f) -> Forall ast_ok f ->
+    no_unwrap f ->
+    (forall el, status cfg1 el = Some true -> status cfg2 el = Some true) ->
+    clean cfg1 ds de (render ds de (doc_of f)) = Ok out1 ->
+    clean cfg2 ds de out1 = Ok out12 ->
+    clean cfg2 ds de (render ds de (doc_of f)) = Ok out2 ->
+    nonws out12 = nonws out2.
+Proof. exact clean_composes_default. Qed.
+Print Assumptions C19_composition_default_strategy.
+
+Theorem C19_composition_over_time :
+  forall cfg now2 ds de f out1 out12 out2,
+    good_delims ds de -> good_doc ds de (doc_of f) -> bodies_ok (doc_of f) -> Forall ast_ok f ->
+    no_unwrap f -> (now cfg <= now2)%Z ->
+    clean cfg ds de (render ds de (doc_of f)) = Ok out1 ->
+    clean (with_now cfg now2) ds de out1 = Ok out12 ->
+    clean (with_now cfg now2) ds de (render ds de (doc_of f)) = Ok out2 ->
+    nonws out12 = nonws out2.
+Proof. exact clean_composes_time. Qed.
+Print Assumptions C19_composition_over_time.
+
+Theorem C19_composition_over_target_sets :
+  forall cfg t2 ds de f out1 out12 out2,
+    good_delims ds de -> good_doc ds de (doc_of f) -> bodies_ok (doc_of f) -> Forall ast_ok f ->
+    no_unwrap f -> (forall v, In v (targets cfg) -> In v t2) ->
+    clean cfg ds de (render ds de (doc_of f)) = Ok out1 ->
+    clean (with_targets cfg t2) ds de out1 = Ok out12 ->
+    clean (with_targets cfg t2) ds de (render ds de (doc_of f)) = Ok out2 ->
+    nonws out12 = nonws out2.
+Proof. exact clean_composes_targets. Qed.
+Print Assumptions C19_composition_over_target_sets.
+
+(** Any number of steps: [clean_chain (c :: cs)] runs the configurations one after the other. *)
+Theorem C19_composition_chain :
+  forall cs c ds de f outn out,
+    good_delims ds de -> good_doc ds de (doc_of f) -> bodies_ok (doc_of f) ->
+    Forall ast_ok f -> no_unwrap f -> grows c cs ->
+    clean_chain (c :: cs) ds de (render ds de (doc_of f)) = Ok outn ->
+    clean (last cs c) ds de (render ds de (doc_of f)) = Ok out ->
+    nonws outn = nonws out.
+Proof. exact clean_chain_composes. Qed.
+Print Assumptions C19_composition_chain.
+
+Theorem C19_no_tag_is_stranded :
+  forall cfg1 cfg2 ds de f out1 out12,
+    good_delims ds de -> good_doc ds de (doc_of f) -> bodies_ok (doc_of f) -> Forall ast_ok f ->
+    no_unwrap f ->
+    (forall el, status cfg1 el = Some true -> status cfg2 el = Some true) ->
+    clean cfg1 ds de (render ds de (doc_of f)) = Ok out1 ->
+    clean cfg2 ds de out1 = Ok out12 ->
+    (exists f12, out12 = render ds de (doc_of f12) /\ Forall ast_ok f12 /\
+       forall b1 b2 o c, In (b1, b2, o, c) (ast_nodes 0 f12) ->
+         In (b1, b2) (map node_bodies (ast_nodes 0 f)) /\ status cfg2 (el_of b1) <> Some true) /\
+    clean cfg2 ds de out12 = Ok out12.
+Proof. exact clean_steps_not_stranded. Qed.
+Print Assumptions C19_no_tag_is_stranded.
+
+(** "Up to whitespace" cannot be dropped: two sibling elements on lines of their own,
+    "a\n<A t1>x</A>\n<B t2>y</B>\nc": step by step gives "a\nc", the single run at t2 "a\n\nc". *)
+Example C19_whitespace_may_differ : _ := cs_differ.
 
 (** The older partial results, for arbitrary sources.  (1) A second run is the identity as soon as the first output contains no ready
     element (C04 applied to the output). *)
